@@ -19,12 +19,18 @@ import (
 func init() { register("C15", runC15) }
 
 func runC15(c *Ctx) {
-	c15Sequential(c)
+	if mqtt.VerifHasIDs {
+		c15Sequential(c)
+	} else {
+		c.Note("C15: the white-box wrapper around the identifier counter does not compile against this tree; the counter-level enumeration and the 65,535-step history are skipped, counter starts come from the (harness-owned) random source only")
+	}
 	c15Concurrent(c)
 	c15CallerSupplied(c)
 	c15Mixed(c)
 	c15ThroughRetryClient(c)
-	c15LongOutstanding(c)
+	if mqtt.VerifHasIDs {
+		c15LongOutstanding(c)
+	}
 }
 
 // (a) sequential: every start value, and full cycles.
@@ -101,7 +107,9 @@ func c15Concurrent(c *Ctx) {
 						return
 					}
 					// a long-lived client reaches every counter value; initID itself never starts above 0xFFFE
-					mqtt.VerifSetIDLast(cli, uint32(st))
+					if mqtt.VerifHasIDs {
+						mqtt.VerifSetIDLast(cli, uint32(st))
+					}
 					ctx, cancel := vctx.WithCancel(vctx.Background())
 					for i, k := range ks {
 						i, k := i, k
